@@ -343,18 +343,21 @@ def run(ctx):
         'prior parameters are read through the public params() text and boundaries(); order of a boundary pair is not compared',
         'TLC + CommunityModules Json/IOUtils; the harness projection harness/fx_optimizer.py',
         'before the first compile_params() nothing is derived (Optimizer has no derived_parameters attribute yet)']
-    # ---- design level
-    ctx.check_spec('coverage', 'MC_Optimizer', 'MC_Optimizer_cov.cfg', need_actions=NEED)      # vacuity: every action taken
-    ctx.check_spec('exhaustive', 'MC_Optimizer', 'MC_Optimizer_%s.cfg' % ctx.tier)
+    # ---- design level (TLC runs in background threads while the behaviours are replayed; joined before finishing)
+    from concurrent.futures import ThreadPoolExecutor
+    pool = ThreadPoolExecutor(max_workers=3)
+    design = [pool.submit(ctx.check_spec, 'coverage', 'MC_Optimizer', 'MC_Optimizer_cov.cfg', need_actions=NEED),   # vacuity: every action taken
+              pool.submit(ctx.check_spec, 'exhaustive', 'MC_Optimizer', 'MC_Optimizer_%s.cfg' % ctx.tier, workers=8)]
     ctx.exhaustive = True
     # e: set_mode stores the spelling it was given (compile reads "LOG" as not "log"); f: update_model notices the
     # wrong length only when the shorter of vector / fitted set runs out, after the leading setters were called
     for cfg, inv in (('a', 'HistoryIndependent'), ('a2', 'DefaultsFollowSettings'), ('b', 'SpacesAgree'),
                      ('b2', 'RoundTrip'), ('c', 'KnownIsAccepted'), ('e', 'HistoryIndependent'),
                      ('f', 'ErrorsChangeNothing')):
-        ctx.expect_refuted('as-built-%s' % cfg, 'MC_Optimizer', 'MC_Optimizer_asbuilt_%s.cfg' % cfg, inv)
+        design.append(pool.submit(ctx.expect_refuted, 'as-built-%s' % cfg, 'MC_Optimizer', 'MC_Optimizer_asbuilt_%s.cfg' % cfg, inv, workers=4))
     # priors of the observation's parameters reaching the table only when the model pass left something in it
-    ctx.expect_refuted('obs-priors-lost', 'MC_Optimizer', 'MC_Optimizer_asbuilt_d.cfg', 'ViewsReadable')
+    design.append(pool.submit(ctx.expect_refuted, 'obs-priors-lost', 'MC_Optimizer', 'MC_Optimizer_asbuilt_d.cfg', 'ViewsReadable', workers=4))
+    ctx._design_futures = design
     # ---- binding C: exhaustive short histories
     res = run_tlc('MC_Optimizer', 'EX_Optimizer_%s.cfg' % ctx.tier, workers=1)
     ctx.add_tlc('export-histories', res, counts=False)
@@ -434,6 +437,9 @@ def run(ctx):
         run_traces(ctx, 150, 25)
     else:
         run_traces(ctx, 1500, 30)
+    for f in ctx._design_futures:       # design-level TLC runs: a failure there is a machinery failure
+        f.result()
+    pool.shutdown()
     # ---- the frame rule on the registries of models built from every component family (spec/ParamFrame.tla)
     n = fx_paramframe.run_paramframe(ctx, 3 if q else 12)
     ctx.note('registry walks (ParamFrame): %d traces over %d scenarios' % (n, len(fx_paramframe.scenarios(ctx.tier))))
